@@ -10,7 +10,7 @@ import (
 )
 
 var vTaintKinds = []string{"given name", "surname", "place", "date phrase", "note", "source title", "source property", "event value",
-	"individual pointer", "sex", "name type", "second name"}
+	"individual pointer", "sex", "name type", "second name", "pointer of a nameless individual"}
 
 // vTaintedDoc builds a document in which one value (selected by kind) carries the taint token
 // "Ta" + c + "nt" with a symbolic ASCII byte c.
@@ -31,6 +31,9 @@ func vTaintedDoc(kind int, tok string) string {
 	s += "1 EVEN " + v(7, "something") + "\n2 TYPE Award\n2 DATE 1870\n1 DEAT\n2 DATE 1900\n1 FAMC @F1@\n"
 	s += "0 @F1@ FAM\n1 HUSB @I1@\n1 WIFE @I2@\n1 CHIL @" + ptr + "@\n"
 	s += "0 @S1@ SOUR\n1 TITL " + v(5, "A source") + "\n1 AUTH " + v(6, "An author") + "\n"
+	if kind == 12 {
+		s += "0 @" + tok + "@ INDI\n1 SEX M\n1 BIRT\n2 DATE 1851\n1 DEAT\n2 DATE 1901\n"
+	}
 	return s
 }
 
@@ -58,7 +61,7 @@ func vCheckEscaped(label, content string, tok string, c byte) {
 func VerifC18_Publish(cs int) {
 	kind := cs % len(vTaintKinds)
 	c := VsByte("taint", 0x20, 0x7e)
-	if kind == 8 {
+	if kind == 8 || kind == 12 {
 		VsAssume(c != '@')
 	}
 	tok := "Ta" + string([]byte{c}) + "nt"
@@ -94,8 +97,11 @@ func VerifC18_Publish(cs int) {
 
 // VerifC18_Diff: the diff report (html) of two documents, one tainted value kind at a time.
 func VerifC18_Diff(cs int) {
-	kind := []int{0, 1, 2, 3, 7}[cs%5]
+	kind := []int{0, 1, 2, 3, 7, 8, 12}[cs%7]
 	c := VsByte("taint", 0x20, 0x7e)
+	if kind == 8 || kind == 12 {
+		VsAssume(c != '@')
+	}
 	tok := "Ta" + string([]byte{c}) + "nt"
 	left, err1 := gedcom.NewDocumentFromString(vTaintedDoc(kind, tok))
 	right, err2 := gedcom.NewDocumentFromString(vTaintedDoc(-1, tok))
